@@ -155,6 +155,21 @@ def accessors(ctx, facts, cfg):
             if st is None and en is not None and RL.norm(hcanon(en, env), p) == sf('shard_bytes') and not inc:
                 ok_cut = True
         if not ok_cut:
+            # the cut may live in an accessor of the store that keeps the configured byte length itself (`shards.bytes(i)`):
+            # `..self.shards.<size field>` where the store sets that field from shard_bytes at every resize (C04.c / C04.d)
+            def find_cut(c):
+                if isinstance(c, tuple):
+                    if len(c) == 3 and c[0] == 'struct' and str(c[1]).endswith('RangeTo') and not str(c[1]).endswith('Inclusive'):
+                        d_ = dict(c[2])
+                        e_ = d_.get('end')
+                        if isinstance(e_, tuple) and e_[0] == 'field' and e_[1] == sf('shards') and 'bytes' in str(e_[2]):
+                            return True
+                    return any(find_cut(x) for x in c)
+                return False
+            if find_cut(payload):
+                from . import c04 as c04__
+                ok_cut = c04__.store_keeps_configured_size(facts, RL, side) is True
+        if not ok_cut:
             problems.append('exposed slice is not cut to ..self.shard_bytes')
         if problems:
             ctx.violation('C12.a-accessor-atoms', 'wrong-condition', '%s: %s' % (p, '; '.join(problems)), site=e.get('line') or fn.span, fn=p, cfg=cfg)
